@@ -719,4 +719,181 @@ def standin_named_reach(tier, seed):
         shutil.rmtree(libdir, ignore_errors=True)
 
 
-STANDINS = [standin_exemplar_shapes, standin_range_bounds, standin_alternations, standin_recursive_documented, standin_named_reach]
+# ------------------------------------------------------------------ family 6: a constrained binding used as the value of a second constrained let
+# `let x :: C1 = V; let y :: C2 = <use of x>;` - the bound value of the second let is what the use of x evaluates to (V itself, a
+# list / tuple around it, one of its fields, ...), so the program builds iff V conforms to C1 AND that value conforms to C2:
+# what C1 says about OTHER values (the alternatives not taken, exemplar fields / element types V does not have) is irrelevant.
+def alt_of(*vs): return ('alt', [('ex', v) for v in vs])
+
+
+CHAIN_FIRST = [
+    # alternations over more than one type (inline / named), each alternative as the value
+    (alt_of(I(1), S('a')), [I(1), S('a')]),
+    (('alt', [('rng', 'int', 1, 3), ('ex', S('none'))]), [I(2), S('none')]),
+    (('named', ('alt', [('rng', 'int', 1, 3), ('ex', S('none'))])), [I(3), S('none')]),
+    (('named', alt_of(S('a'), F(1.5), B(True))), [S('a'), F(1.5), B(True)]),
+    (alt_of(T(('a', I(1))), S('s')), [T(('a', I(1))), S('s')]),
+    (alt_of(L(I(1)), I(1)), [L(I(1)), I(1)]),
+    (alt_of(T(('a', I(1))), T(('a', S('s')))), [T(('a', I(1))), T(('a', S('s')))]),
+    (alt_of(L(I(1)), L(S('s'))), [L(I(1)), L(S('s'))]),
+    (('alt', [('named', ('rng', 'float', 0.0, 1.0)), ('ex', S('off')), ('named', ('ex', B(False)))]), [F(0.5), S('off'), B(False)]),
+    (('alt', [('letex', I(4)), ('letex', S('c'))]), [I(4), S('c')]),
+    # tuple exemplars with fewer / more / other fields than the value
+    (('ex', T(('a', I(0)))), [T(('a', I(1)), ('b', I(2))), T(('a', I(1)), ('b', S('s'))), T(('a', I(1))), T()]),
+    (('ex', T(('a', I(0)), ('b', S('')))), [T(('a', I(1))), T(('a', I(1)), ('b', S('t'))), T(('a', I(1)), ('b', S('t')), ('c', B(True))), T(('b', S('t')))]),
+    (('ex', T()), [T(('a', I(1))), T(('a', S('s')), ('b', L(I(1))))]),
+    (('named', ('ex', T(('a', T(('b', I(0))))))), [T(('a', T(('b', I(1)), ('c', S('s'))))), T(('a', T(('b', I(1)))), ('d', F(1.5)))]),
+    (('letex', T(('a', I(0)), ('l', L(S(''))))), [T(('a', I(1)), ('l', L(S('p'), S('q'))), ('k', B(True))), T(('l', L()))]),
+    # list exemplars with fewer / more element types than the value
+    (('ex', L()), [L(I(1)), L(S('s'), S('t')), L(L(I(1)))]),
+    (('ex', L(I(0))), [L(), L(I(1), I(2))]),
+    (('ex', L(I(0), S(''))), [L(I(1)), L(S('s')), L()]),
+    (('named', ('ex', L(T(('a', I(0)))))), [L(T(('a', I(1)), ('b', I(2)))), L(T(('a', I(1))), T(('a', I(2))))]),
+    (('letex', L(L(I(0)))), [L(L(I(1)), L(I(2), I(3))), L(L())]),
+    # plain exemplars, ranges (the binding has the type of the value anyway)
+    (('ex', I(0)), [I(7)]), (('named', ('ex', S(''))), [S('text')]), (('letex', F(0.0)), [F(2.5)]), (('ex', B(True)), [B(False)]),
+    (('rng', 'int', 1, 3), [I(2)]), (('named', ('rng', 'float', 0.0, 1.0)), [F(0.5)]), (('rng', 'int', 1, None), [I(8080)]),
+    # the first let does not admit the value: the build fails whatever follows
+    (alt_of(I(1), S('a')), [I(2)]), (('ex', T(('a', I(0)))), [T(('a', S('s')))]), (('rng', 'int', 1, 3), [I(4)]),
+]
+
+
+def use_forms(v):
+    """uses of the binding x (holding v) with an exactly known static type: name -> (statements, expression, the value it evaluates to)"""
+    f = {
+        'direct': ([], 'x', v),
+        'paren': ([], '(x)', v),
+        'alias': (['let z = x;'], 'z', v),
+        'alias2': (['let z = x;', 'let w = (z);'], 'w', v),
+        'in_list': ([], '[x]', L(v)),
+        'in_list2': ([], '[x, x]', L(v, v)),
+        'in_tuple': ([], '{f = x}', T(('f', v))),
+        'in_nested': ([], '{f = [x], g = 1}', T(('f', L(v)), ('g', I(1)))),
+        'field': (['let tt = {f = x, g = "other"};'], 'tt.f', v),
+        'nested_field': (['let tt = {f = {g = x}};'], 'tt.f.g', v),
+        'list_elem': (['let ll = [x, x];'], 'll.0', v),
+        'constfunc': (['let ff = func() => x;'], 'ff()', v),
+        'func_list': (['let ff = func() => [x];'], 'ff()', L(v)),
+        'select1': ([], 'select (true, x) => {true = x}', v),
+    }
+    if v != T():
+        f['module'] = (['let mm = module {p = x} => (r) { let r = mod.p; };'], 'mm{}', v)
+    if v[0] == 'tuple':
+        f['copy'] = ([], 'x{}', v)
+        if 'zz' not in dict(v[1]):
+            f['copy_add'] = ([], 'x{zz = true}', T(*(v[1] + [('zz', B(True))])))
+        for n, w in v[1]:
+            f['select_' + n] = ([], 'x.%s' % n, w)
+            if w[0] == 'tuple':
+                for m, u in w[1]:
+                    f['select_%s_%s' % (n, m)] = ([], 'x.%s.%s' % (n, m), u)
+    if v[0] == 'list' and v[1] and all(compat(a, c) for a in v[1] for c in v[1]):
+        f['elem0'] = ([], 'x.0', v[1][0])
+        f['elem_last'] = ([], 'x.%d' % (len(v[1]) - 1), v[1][-1])
+        f['concat'] = ([], 'x + x', L(*(v[1] + v[1])))
+    if v[0] == 'int' and abs(v[1]) < 10 ** 6:
+        f['arith'] = ([], 'x + 1', I(v[1] + 1))
+    if v[0] == 'str':
+        f['concat'] = ([], 'x + "!"', S(v[1] + '!'))
+    if v[0] == 'bool':
+        f['not'] = ([], 'not x', B(not v[1]))
+    return f
+
+
+def second_constraints(w):
+    """constraints that decide w: its own shape, every single-node edit of it, every primitive, and ranges / alternations around it"""
+    cs = [('ex', w), ('ex', bump(w))] + [('ex', m) for m in mutants(w)] + [('ex', p) for p in PRIMS]
+    k, p = w
+    if k == 'int':
+        cs += [('rng', 'int', p - 1, p + 1), ('rng', 'int', p + 1, None), ('rng', 'int', None, p - 1), ('rng', 'int', p, p), ('rng', 'float', float(p - 1), float(p + 1)),
+               alt_of(w, S('q')), alt_of(S('q'), I(p + 1)), ('alt', [('rng', 'int', p - 2, p - 1), ('ex', S(str(p)))])]
+    elif k == 'float':
+        cs += [('rng', 'float', p - 0.5, p + 0.5), ('rng', 'float', p + 0.001, None), ('rng', 'float', None, p), ('rng', 'int', int(p) - 1, int(p) + 2), alt_of(w, I(1)), alt_of(F(p + 1.0), I(1))]
+    else:
+        cs += [alt_of(w, I(5)), alt_of(I(5), bump(w)), alt_of(I(5), w), ('rng', 'int', 0, 9)]
+    seen, out = set(), []
+    for c in cs:
+        key = csrc(c, [])
+        if key not in seen:
+            seen.add(key)
+            out.append(c)
+    return out
+
+
+def shape_of(c):
+    """the exemplar a pure-exemplar constraint stands for, else None"""
+    if c[0] in ('ex', 'letex'):
+        return c[1]
+    return shape_of(c[1]) if c[0] == 'named' else None
+
+
+def widened(e, v):
+    """v plus what the exemplar e says beyond it: the fields e has and v lacks, the elements of e where v is the empty list (at every depth)"""
+    if e[0] != v[0] or e[0] not in ('tuple', 'list'):
+        return v
+    if e[0] == 'tuple':
+        fe = dict(e[1])
+        return T(*([(n, widened(fe[n], x) if n in fe else x) for n, x in v[1]] + [(n, x) for n, x in e[1] if n not in dict(v[1])]))
+    if not v[1]:
+        return e
+    return L(*[widened(e[1][0], x) if len(e[1]) == 1 else x for x in v[1]])
+
+
+def emptied(e, v):
+    """v with every list emptied where the exemplar e has the empty list (at every depth)"""
+    if e[0] != v[0] or e[0] not in ('tuple', 'list'):
+        return v
+    if e[0] == 'tuple':
+        fe = dict(e[1])
+        return T(*[(n, emptied(fe[n], x) if n in fe else x) for n, x in v[1]])
+    if not e[1]:
+        return L()
+    return L(*[emptied(e[1][0], x) if len(e[1]) == 1 else x for x in v[1]])
+
+
+def standin_chained_lets(tier, seed):
+    rnd = random.Random(seed)
+    thorough = tier == 'thorough'
+    b = Batch()
+    for c1, vals in CHAIN_FIRST:
+        for v in vals:
+            ok1 = admits(c1, v)
+            uses = use_forms(v)
+            names = sorted(uses)
+            if not thorough:
+                names = ['direct'] + rnd.sample([n for n in names if n != 'direct'], 4)
+            for un in names:
+                ustm, uexpr, w = uses[un]
+                c2s = second_constraints(w)
+                if not thorough and len(c2s) > 7:
+                    c2s = c2s[:1] + rnd.sample(c2s[1:], 6)
+                elif thorough and len(c2s) > 16:
+                    c2s = c2s[:2] + rnd.sample(c2s[2:], 14)
+                e1 = shape_of(c1)
+                # what the same use gives for the value as the KNOWN defects see it (None: the use has no static type at all, e.g. an element of `[]`)
+                w_wide = use_forms(widened(e1, v)).get(un, (0, 0, w))[2] if e1 is not None else w
+                w_empty = use_forms(emptied(e1, v)).get(un, (0, 0, None))[2] if e1 is not None else w
+                for c2 in c2s:
+                    ok = ok1 and admits(c2, w)
+                    if ok1 and ((ok and not admits(c2, w_wide)) or (not ok and (w_empty is None or admits(c2, w_empty)))):
+                        b.skipped += 1          # KNOWN: wider_exemplar_remembered / empty_list_exemplar_forgets
+                        continue
+                    for c2w in ([c2, ('named', c2)] if thorough else [rnd.choice([c2, c2, ('named', c2)])]):
+                        pre = []
+                        t1 = csrc(c1, pre)
+                        first = pre + ['let x :: %s = %s;' % (t1, vsrc(v))]
+                        pre2 = []
+                        t2 = csrc(c2w, pre2)
+                        pre2 = [p.replace('constraint c', 'constraint d').replace('let e', 'let g') for p in pre2]
+                        if t2[:1] in 'ce' and t2[1:].isdigit():
+                            t2 = {'c': 'd', 'e': 'g'}[t2[0]] + t2[1:]
+                        b.add_program('\n'.join(first + pre2 + ustm + ['let y :: %s = %s;' % (t2, uexpr)]), ok, 'chained lets, x used by %s' % un)
+    return b.run('chained_lets',
+                 '%d first constraints (mixed-type alternations inline / named / of names, tuple exemplars with fewer / more / other fields than the value, list exemplars with fewer / more '
+                 'element types, plain exemplars, ranges, 3 that refuse the value) x their %d values x %s uses of the binding (direct, alias, inside a list / tuple, through a field, '
+                 'list element, function, select, module, copy, selector of each field, element, arithmetic) x %s second constraints (the shape of the used value, every single-node edit of '
+                 'it, every primitive, ranges / alternations around it; inline and named)'
+                 % (len(CHAIN_FIRST), sum(len(v) for _, v in CHAIN_FIRST), 'all' if thorough else '5 seeded', 'up to 16 seeded' if thorough else '7 seeded'))
+
+
+STANDINS = [standin_exemplar_shapes, standin_range_bounds, standin_alternations, standin_recursive_documented, standin_named_reach, standin_chained_lets]
